@@ -15,7 +15,7 @@ R4 applied delay = min(max(0, raw if finite else 0), remaining) and that one
 from __future__ import annotations
 
 from .. import gen as G
-from ..facts import V, analyze, entry_name
+from ..facts import V, analyze, entry_name, feq
 from . import common
 
 ID = "C05"
@@ -36,9 +36,7 @@ def gen(seed, tier="quick"):
 
 
 def _eq(a, b):
-    if isinstance(a, str) or isinstance(b, str):
-        return str(a) == str(b)
-    return a == b
+    return feq(a, b)
 
 
 def oracle(scn, trace):
@@ -73,13 +71,13 @@ def oracle(scn, trace):
             if not _eq(s["prev"], prev_applied):
                 probs.append(("prev_sleep_s", s["prev"], prev_applied))
             if s["style"] == "ctx":
-                if s["remaining"] != inf.remaining_s:
+                if not feq(s["remaining"], inf.remaining_s):
                     probs.append(("remaining_s", s["remaining"], inf.remaining_s))
                 if s["cause"] != a.cause:
                     probs.append(("cause", s["cause"], a.cause))
                 ra = a.end.get("ra")
                 want_ra = None if ra is None else ra / 1e6
-                if s["ra"] != want_ra:
+                if not feq(s["ra"], want_ra):
                     probs.append(("retry_after_s", s["ra"], want_ra))
                 if s["same_cls_obj"] is False:
                     probs.append(("classification", "fields differ", "the classifier's own Classification (klass, retry_after_s, details)"))
